@@ -177,7 +177,7 @@ class Lexer:
             (TOKEN_BARE_PROPERTY, self.key_pattern),
             (TOKEN_LPAREN, r"\("),
             (TOKEN_RPAREN, r"\)"),
-            (TOKEN_SKIP, r"(?:[ \n\t\r]|\.(?!\.))+"),
+            (TOKEN_SKIP, r"[ \n\t\r]+|\.(?!\.)"),
             (TOKEN_ILLEGAL, r"."),
         ]
 
